@@ -46,51 +46,62 @@ CORR = {
 }
 
 
-def props_file(prop):
-    return os.path.join(VERIF, 'coq', 'theories', 'Props', prop + '.v')
+def props_files(prop):
+    import glob
+    d = os.path.join(VERIF, 'coq', 'theories', 'Props')
+    return sorted(glob.glob(os.path.join(d, prop + '.v')) + glob.glob(os.path.join(d, prop + '[a-z]*.v')))
 
 
 def check_props(prop, corr):
-    """Re-check Props/<prop>.v with coqc (always, even when its .vo is up to
-    date) and read the Print Assumptions output."""
-    path = props_file(prop)
-    info = {'file': os.path.relpath(path, VERIF), 'theorems': [], 'obligations': 0, 'discharged': 0,
-            'axioms': [], 'closed': 0, 'ok': False, 'error': None, 'forbidden': []}
-    if not os.path.exists(path):
+    """Re-check every Props/<prop>*.v with coqc (always, even when its .vo is
+    up to date) and read the Print Assumptions output."""
+    info = {'files': [], 'file': None, 'theorems': [], 'obligations': 0, 'discharged': 0,
+            'axioms': [], 'closed': 0, 'ok': False, 'error': None, 'forbidden': [], 'coqc_s': 0.0}
+    paths = props_files(prop)
+    if not paths:
         info['error'] = 'no Props file'
         return info
-    src = open(path).read()
-    thms = re.findall(r'^\s*(?:Theorem|Corollary)\s+(\w+)', src, re.M)
-    info['theorems'] = thms
-    info['obligations'] = len(thms)
     # forbidden constructs anywhere in the development
-    rc, out = corr.sh(r"grep -rnE '\b(Admitted|admit|Axiom|Parameter|Conjecture|Hypothesis|Variable)\b|Unset Guard|bypass_check|type-in-type|Admit Obligations' "
-                      r"--include=*.v theories | grep -v '^theories/.*:[0-9]*: *(\*' | grep -vE 'Section|Variable [a-zA-Z_ ]+:|Hypothesis [A-Za-z_0-9 ]+:' || true",
+    rc, out = corr.sh(r"grep -rnE '\b(Admitted|admit|Axiom|Parameter|Conjecture)\b|Unset Guard|bypass_check|type-in-type|Admit Obligations' "
+                      r"--include=*.v theories | grep -vE ':[0-9]+: *\(\*|\(\*.*(Admitted|admit|Axiom|Parameter|Conjecture).*\*\)' || true",
                       cwd=os.path.join(VERIF, 'coq'))
     info['forbidden'] = [l for l in out.splitlines() if l.strip()][:10]
     args = '-Q theories/Model TexModel -Q theories/Proofs TexProofs -Q theories/Props TexProps'
-    t0 = time.time()
-    rc, out = corr.sh('timeout 900 coqc %s %s' % (args, os.path.relpath(path, os.path.join(VERIF, 'coq'))),
-                      cwd=os.path.join(VERIF, 'coq'), timeout=1000)
-    info['coqc_s'] = round(time.time() - t0, 1)
-    info['checker_cmd'] = 'cd coq && coqc %s %s' % (args, os.path.relpath(path, os.path.join(VERIF, 'coq')))
-    if rc != 0:
-        info['error'] = out[-800:]
-        m = re.search(r'line (\d+)', out)
-        if m:
-            line = int(m.group(1))
-            before = [t for t in re.finditer(r'^\s*(?:Theorem|Corollary|Lemma|Example)\s+(\w+)', src, re.M)
-                      if src[:t.start()].count('\n') < line]
-            info['failing'] = before[-1].group(1) if before else None
-            # theorems fully before the failing one were accepted
-            info['discharged'] = max(0, len([t for t in thms if src.find(t) < src.find(info['failing'] or '')]) if info['failing'] else 0)
-        return info
-    closed = out.count('Closed under the global context')
-    info['closed'] = closed
-    axioms = re.findall(r'^\s*([A-Za-z_][\w.]*)\s*:', out.split('Axioms:', 1)[1], re.M) if 'Axioms:' in out else []
-    info['axioms'] = sorted(set(axioms))
-    info['discharged'] = len(thms)
-    info['ok'] = True
+    cmds = []
+    allok = True
+    for path in paths:
+        rel = os.path.relpath(path, os.path.join(VERIF, 'coq'))
+        src = open(path).read()
+        thms = re.findall(r'^\s*(?:Theorem|Corollary)\s+(\w+)', src, re.M)
+        info['files'].append(rel)
+        info['theorems'] += thms
+        info['obligations'] += len(thms)
+        t0 = time.time()
+        rc, out = corr.sh('timeout 900 coqc %s %s' % (args, rel), cwd=os.path.join(VERIF, 'coq'), timeout=1000)
+        info['coqc_s'] = round(info['coqc_s'] + time.time() - t0, 1)
+        cmds.append('coqc %s %s' % (args, rel))
+        if rc != 0:
+            allok = False
+            info['file'] = rel
+            info['error'] = out[-800:]
+            m = re.search(r'line (\d+)', out)
+            if m:
+                line = int(m.group(1))
+                before = [t for t in re.finditer(r'^\s*(?:Theorem|Corollary|Lemma|Example)\s+(\w+)', src, re.M)
+                          if src[:t.start()].count('\n') < line]
+                info['failing'] = before[-1].group(1) if before else None
+                if info['failing']:
+                    info['discharged'] += len([t for t in thms if src.find(t) < src.find(info['failing'])])
+            continue
+        info['closed'] += out.count('Closed under the global context')
+        if 'Axioms:' in out:
+            for blk in out.split('Axioms:')[1:]:
+                info['axioms'] += re.findall(r'^\s*([A-Za-z_][\w.]*)\s*:', blk, re.M)
+        info['discharged'] += len(thms)
+    info['axioms'] = sorted(set(info['axioms']))
+    info['checker_cmd'] = 'cd coq && ' + ' && '.join(cmds)
+    info['file'] = info['file'] or info['files'][0]
+    info['ok'] = allok
     return info
 
 
@@ -161,6 +172,14 @@ def main():
         kf = [k for k in known if k['id'] == kid][0]
         lines.append('KNOWN-FINDING: property=%s %s (%d inputs this run, e.g. %r)'
                      % (prop, kf['what'], len(fs), fs[0].inp if len(str(fs[0].inp)) < 120 else str(fs[0].inp)[:120]))
+    for kf in known:
+        if kf.get('status') != 'known' or prop not in kf.get('properties', []) or kf['id'] in known_hits:
+            continue
+        if classifiers.reproduces(kf):
+            lines.append('KNOWN-FINDING: property=%s %s (recorded example replayed: still fails; e.g. %r)'
+                         % (prop, kf['what'], kf.get('example')))
+        else:
+            lines.append('NOTE: known finding %s no longer reproduces on its recorded example' % kf['id'])
     broken = []
     if not build.ok:
         broken.append({'kind': 'build', 'stage': build.stage, 'file': build.failed_file,
